@@ -216,6 +216,72 @@ func c13() []*Ob {
 				// the hint is consumed by the sealed token index only
 				c.Site(fn.Pos(), "GetHint checked")
 			}},
+		{Prop: "C13", ID: "C13.7", Engine: "SHAPE", Floor: 1,
+			Desc: "block pre-selection compares byte prefixes of exactly the hint's length: token.cut returns its argument or its first l bytes, l being the parameter itself (a cut that stops short — at a rune boundary, say — makes `hint <= cut(MaxVal)` false for a block whose last token starts with the hint, and the block with matching tokens is skipped)",
+			Check: func(c *Ctx) {
+				sel := c.Fn("(frac/token.Table).SelectEntries")
+				cut := c.Fn("frac/token.cut")
+				if sel == nil {
+					return
+				}
+				if cut == nil {
+					// inlined: nothing to check here (the comparisons are on slices in SelectEntries itself)
+					c.Site(sel.Pos(), "SelectEntries compares prefixes inline")
+					return
+				}
+				if len(cut.Params) < 2 {
+					c.Undecided("shape:cut:params", cut.Pos(), "token.cut no longer takes (string, length)")
+					return
+				}
+				str, l := cut.Params[0], cut.Params[1]
+				for _, b := range cut.Blocks {
+					ret, ok := b.Instrs[len(b.Instrs)-1].(*ssa.Return)
+					if !ok {
+						continue
+					}
+					v := RetOperand(ret, 0)
+					if v == ssa.Value(str) {
+						c.Site(ret.Pos(), "cut returns the whole string when it is not longer than the prefix")
+						continue
+					}
+					if sl, ok := v.(*ssa.Slice); ok && sl.X == ssa.Value(str) && sl.Low == nil && sl.High == ssa.Value(l) {
+						c.Site(ret.Pos(), "cut returns exactly the first l bytes")
+						continue
+					}
+					c.Violation("shape:cut:not-exact", ret.Pos(), "token.cut returns something other than the string or its first l bytes: the pre-selection of dictionary blocks compares the hint with a prefix of a different length, and a block that holds tokens starting with the hint can be left out")
+				}
+			}},
+		{Prop: "C13", ID: "C13.8", Engine: "ORDER", Floor: 1,
+			Desc: "membership in a numeric range is decided by the number the token denotes: in rangeNumberSearch.check every answer is given after strconv.ParseFloat has been asked (no cheaper test on the spelling rejects a token first — '.5' and '1e2' are numbers)",
+			Check: func(c *Ctx) {
+				fn := c.Fn("(*pattern.rangeNumberSearch).check")
+				if fn == nil {
+					return
+				}
+				parse := c.P.MustCall(Callee("strconv.ParseFloat"))
+				pcs := CallsIn(fn, parse)
+				if len(pcs) == 0 {
+					c.Violation("order:rangeNumberSearch.check:no-parse", fn.Pos(), "rangeNumberSearch.check no longer parses the token with strconv.ParseFloat")
+					return
+				}
+				for _, b := range fn.Blocks {
+					ret, ok := b.Instrs[len(b.Instrs)-1].(*ssa.Return)
+					if !ok {
+						continue
+					}
+					dom := false
+					for _, pc := range pcs {
+						if Dominates(pc.(ssa.Instruction), ret) {
+							dom = true
+						}
+					}
+					if dom {
+						c.Site(ret.Pos(), "answers after parsing the token as a number")
+					} else {
+						c.Violation("order:rangeNumberSearch.check:answer-before-parse", ret.Pos(), "rangeNumberSearch.check answers without having parsed the token: a spelling test that runs first rejects numbers it does not recognise (a leading '.', an exponent form) although their value lies in the range")
+					}
+				}
+			}},
 		{Prop: "C13", ID: "C13.5", Engine: "PROV+SHAPE", Floor: 1,
 			Desc:  "structural necessities of the wildcard matcher: checkMiddle searches the middle fragments in val[len(prefix) : len(val)-len(suffix)] (not overlapping prefix or suffix); the prefix-function fallback in findSubstring and calcPrefFunc is iterated (a loop), not a single step",
 			Check: func(c *Ctx) { matcherShape(c) }},
